@@ -114,5 +114,37 @@ def run_c09(tier, seed):
     return _finish(v, work, counters, distinct, samples, stats,
                    "endpoint with w in {1,2,4,8} workers sharing one Rest::Router (routes under GET/POST/PUT/DELETE/PATCH/OPTIONS/HEAD) x 1-12 keep-alive client threads x 5-120 requests hitting every method table, 405 (other method registered) and 404, handlers answering from a foreign thread; each response's tag must be the function of its request and no unsolicited bytes may arrive; shutdown() fired after the load, idle with connections open, mid-load, with slow handlers in flight, before any load, twice; afterwards the port must refuse and /proc/self/task be back at the baseline. Oracle for shared state: ThreadSanitizer. distinct = (workers, clients, shutdown point)")
 
+def run_c15(tier, seed):
+    v = vlib.Verdict("C15", tier, seed, level="exploration")
+    work = vlib.scratch_dir("C15")
+    binary = vlib.build_harness("client", "plain")
+    res = vlib.run_resumable(binary, ["--prop", "c15", "--seed", str(seed), "--cases", str(4 if tier == "quick" else 200)], 12,
+                             timeout=600 if tier == "quick" else 7200, work=work)
+    counters, distinct, samples, stats = vlib.collect_runs(v, res, only_prefix="c15:")
+    v.assumptions += ["the server is a scripted raw TCP server written in the harness; every request/response carries a unique tag",
+                      "a batch is judged when all promises are settled or the server has been idle for 3 s x load; every batch runs in a forked child under a 25 s x load watchdog (a wedged client is a witness)",
+                      "Experimental::Client has no pipelining and cannot resume a partial send: request bodies stay below the socket buffer"]
+    return _finish(v, work, counters, distinct, samples, stats,
+                   "batches of 1-64 requests issued at once through one Experimental::Client (1-4 threads, maxConnectionsPerHost 1-8, so queueing behind the limit is the norm) to a scripted server whose behaviour per request is immediate / delayed / byte-dribbled / chunked / close-after-response / never-answered (client time-out 400 ms) / answered after the client's time-out; per-promise settle counters, echoed tags, server-side request log with connection ids, peak simultaneous connections. distinct = (threads, limit, over-limit?, scenario, batch size class)")
+
+def run_c02(tier, seed):
+    v = vlib.Verdict("C02", tier, seed, level="exploration")
+    work = vlib.scratch_dir("C02")
+    binary = vlib.build_harness("client", "plain")
+    res = vlib.run_resumable(binary, ["--prop", "c02", "--seed", str(seed), "--cases", str(200 if tier == "quick" else 8000)], 8,
+                             timeout=300 if tier == "quick" else 7200, work=work)
+    counters, distinct, samples, stats = vlib.collect_runs(v, res)
+    v.assumptions += ["components that need no escaping (token characters in names and query, arbitrary octets in bodies); framework additions (Host, User-Agent, Content-Length, Connection, empty Cookie header) are allowed",
+                      "request bodies <= 16 KiB (the experimental client cannot resume a partial send)"]
+    return _finish(v, work, counters, distinct, samples, stats,
+                   "real Experimental::Client <-> real Http::Endpoint on loopback: requests built with RequestBuilder (9 methods, path, 0-4 query parameters, 0-5 typed headers out of 10 types, 0-6 cookies, bodies 0..16000 arbitrary octets incl. empty / 1 byte / ending in CR) compared with what onRequest sees; responses (20 status codes, typed headers, cookies with/without attributes, fixed bodies 0..20000 octets or streams of 0-8 chunks across hex-length boundaries) compared with the Http::Response delivered to the client promise. distinct = (method, query, headers, cookies, body class, response kind, chunks, status class)")
+
+def c05_client_requests(v, tier, seed, work):
+    binary = vlib.build_harness("client", "plain")
+    res = vlib.run_resumable(binary, ["--prop", "c15", "--seed", str(seed + 50), "--cases", str(2 if tier == "quick" else 40)], 6,
+                             timeout=600 if tier == "quick" else 7200, work=work, tag="cr")
+    c, d, s, st = vlib.collect_runs(v, res, only_prefix="c05:")
+    return dict(client_requests_parsed=int(c.get("counts", {}).get("requests", 0)), **st)
+
 def run(pid, tier, seed, replay=None):
-    return {"C09": run_c09, "C05": run_c05, "C06": run_c06, "C07": run_c07, "C08": run_c08, "C14": run_c14}[pid](tier, seed)
+    return {"C15": run_c15, "C02": run_c02, "C09": run_c09, "C05": run_c05, "C06": run_c06, "C07": run_c07, "C08": run_c08, "C14": run_c14}[pid](tier, seed)
